@@ -30,7 +30,7 @@ var FamilyNames = []string{
 	"self", "wide-kids", "wide-filters", "deep-array", "deep-dict", "deep-content",
 	"acroform-loop", "xobject-loop", "type3-loop", "action-chain", "pattern-loop",
 	"parent-loop", "contents-array", "colorspace-chain", "huge-offsets",
-	"nest-function", "nest-action", "nest-colorspace", "presteps-chain",
+	"nest-function", "nest-action", "nest-colorspace", "presteps-chain", "objstm-filter",
 }
 
 // wiringFamily builds a large wiring of one of the model's walkers and
@@ -416,6 +416,8 @@ func (fam *Family) build() ([]byte, error) {
 		pageExtra = fmt.Sprintf("/PresSteps %s ", ref(base))
 	case "chain-prev", "chain-objstm":
 		return fam.buildSections(n)
+	case "objstm-filter":
+		return fam.buildObjStmFilter(n), nil
 	case "huge-offsets":
 		return fam.buildHugeOffsets(n), nil
 	default:
@@ -545,4 +547,50 @@ func (fam *Family) buildHugeOffsets(n int) []byte {
 	a.stream(9, fmt.Sprintf("/Type /XRef /Size 30 /W [1 8 8] /Index [%s] /Root 1 0 R %s", strings.Join(index, " "), prev), "", body.Bytes())
 	buf.Write(a.finish(p))
 	return buf.Bytes()
+}
+
+// buildObjStmFilter: the description of an object stream's own filter is an
+// indirect object that lives in an object stream - its own, or (two
+// containers) each other's.  Variants by size: 1 /Filter, 2 /DecodeParms,
+// 3 an element of the /Filter array, 4 an element of the /DecodeParms array,
+// 5.. two containers crossing.  GetFilters must not look into object streams
+// for these (canObjStm = false), or opening the container never ends.
+func (fam *Family) buildObjStmFilter(n int) []byte {
+	a := newAsm("1.7")
+	a.obj(1, "<< /Type /Catalog /Pages 2 0 R >>")
+	a.obj(2, "<< /Type /Pages /Kids [3 0 R] /Count 1 >>")
+	a.obj(3, "<< /Type /Page /Parent 2 0 R /MediaBox [0 0 100 100] /Resources << >> >>")
+	ents := []xent{{num: 0, typ: 0}, {num: 1, typ: 1, off: a.offs[1]}, {num: 2, typ: 1, off: a.offs[2]}, {num: 3, typ: 1, off: a.offs[3]}}
+	// members: 20 name, 21 parms dictionary, 22 a plain value (in container 10); 30, 31, 32 likewise (in container 11)
+	member := map[int]string{20: "/ASCIIHexDecode", 21: "<< /Columns 1 >>", 22: "<< /V 1 >>", 30: "/ASCIIHexDecode", 31: "<< /Columns 1 >>", 32: "<< /V 2 >>"}
+	container := func(num int, members []int, dict string) {
+		data, cnt, first := objStmData(members, member)
+		enc := data
+		if fam.Cyc {
+			enc = hexN(data, 1) // as if the filter were found
+		}
+		a.stream(num, fmt.Sprintf("/Type /ObjStm /N %d /First %d %s", cnt, first, dict), "", enc)
+		ents = append(ents, xent{num: num, typ: 1, off: a.offs[num]})
+		for i, m := range members {
+			ents = append(ents, xent{num: m, typ: 2, stm: num, idx: i})
+		}
+	}
+	switch n % 6 {
+	case 1:
+		container(10, []int{20, 21, 22}, "/Filter 20 0 R")
+	case 2:
+		container(10, []int{20, 21, 22}, "/Filter /ASCIIHexDecode /DecodeParms 21 0 R")
+	case 3:
+		container(10, []int{20, 21, 22}, "/Filter [20 0 R]")
+	case 4:
+		container(10, []int{20, 21, 22}, "/Filter [/ASCIIHexDecode] /DecodeParms [21 0 R]")
+	case 5:
+		container(10, []int{20, 21, 22}, "/Filter 30 0 R")
+		container(11, []int{30, 31, 32}, "/Filter 20 0 R")
+	default:
+		container(10, []int{20, 21, 22}, "/Filter [/ASCIIHexDecode 30 0 R] /DecodeParms [null 31 0 R]")
+		container(11, []int{30, 31, 32}, "/DecodeParms 21 0 R /Filter /ASCIIHexDecode")
+	}
+	sx := a.xrefStream(9, ents, "/Root 1 0 R", fam.XS)
+	return a.finish(sx)
 }
